@@ -598,7 +598,7 @@ class DataType(object):
         if len(split_data_type) <= 2:
             # Simple hexadecimal value. Note that we restrict
             # the character space to lowercase characters only.
-            return e.data(e.param(r'[a-f\d]{%d}' % digits, name='pattern'), type='hexBinary')
+            return e.data(e.param(r'[a-f0-9]{%d}' % digits, name='pattern'), type='hexBinary')
 
         group_length = int(split_data_type[2]) * 2
         group_separator = split_data_type[3]
@@ -616,11 +616,11 @@ class DataType(object):
 
         if num_groups == 1:
             # We have just one digit group, so no separators are used.
-            return e.data(e.param(r'[a-f\d]{%d}' % group_length, name='pattern'), type='string')
+            return e.data(e.param(r'[a-f0-9]{%d}' % group_length, name='pattern'), type='string')
 
         return e.data(
             e.param(
-                r'[a-f\d]{%d}(%s[a-f\d]{%d}){%d}' %
+                r'[a-f0-9]{%d}(%s[a-f0-9]{%d}){%d}' %
                 (group_length, group_separator, group_length, num_groups - 1),
                 name='pattern'
             ), type='string'
@@ -630,7 +630,7 @@ class DataType(object):
         e = ElementMaker()
         # Note that we restrict the character space to lowercase characters only.
         return e.data(
-            e.param(r'[a-f\d]{8}-[a-f\d]{4}-[a-f\d]{4}-[a-f\d]{4}-[a-f\d]{12}', name='pattern'),
+            e.param(r'[a-f0-9]{8}-[a-f0-9]{4}-[a-f0-9]{4}-[a-f0-9]{4}-[a-f0-9]{12}', name='pattern'),
             type='string'
         )
 
@@ -719,7 +719,7 @@ class DataType(object):
         else:
             return e.data(
                 e.param(
-                    r'[a-f\d]{4}(:[a-f\d]{4}){7}',
+                    r'[a-f0-9]{4}(:[a-f0-9]{4}){7}',
                     name='pattern'
                 ), type='string'
             )
